@@ -250,6 +250,7 @@ package cache
 //@   guardedby data RWMutex
 
 //@ func (*shardedMap).Read
+//@   flag onesection
 //@   props C07 C09 C08 C16
 //@   requires ctx != nil && repOK(c)
 //@   let kb := bytes(key)
@@ -272,6 +273,7 @@ package cache
 // the stored key is a fresh copy (C09: no reference to the caller's slice is retained).
 
 //@ func (*shardedMap).Write
+//@   flag onesection
 //@   props C07 C09 C10 C08 C16 C18
 //@   requires ctx != nil && repOK(c)
 //@   requires c.t.Config.ExpirationJitter <= 1.0
@@ -301,6 +303,7 @@ package cache
 // entry of exactly this key is removed; nothing else changes.
 
 //@ func (*shardedMap).Delete
+//@   flag onesection
 //@   props C07 C09 C08 C16 C18
 //@   requires ctx != nil && repOK(c)
 //@   let kb := bytes(key)
@@ -393,6 +396,7 @@ package cache
 
 //@ func (*shardedMap).ExpireAll
 //@   props C07 C08 C16
+//@   replay entryrace backend:=sharded
 //@   requires ctx != nil && repOK(c)
 //@   ensures [C07.expireall.dom] mapKept(c)
 //@   ensures [C07.expireall.expired] forall h uint64 :: hasH(c, h) ==> ent(c, h).E == now(1)
@@ -439,7 +443,8 @@ package cache
 //@ def sMapKept(c) := forall s string :: sHas(c, s) == old(sHas(c, s)) && sGet(c, s) == old(sGet(c, s))
 
 //@ func (*syncMap).Read
-//@   props C07 C09 C18
+//@   flag onesection
+//@   props C07 C09 C18 C08 C16
 //@   requires ctx != nil && sRepOK(c)
 //@   let kb := bytes(key)
 //@   let e := old(sEnt(c, kb))
@@ -457,7 +462,8 @@ package cache
 //@   modifies H|TraitEntry|.C @stat @log G|clock G|clk G|nclk
 
 //@ func (*syncMap).Write
-//@   props C07 C09 C10 C18
+//@   flag onesection
+//@   props C07 C09 C10 C18 C08 C16
 //@   requires ctx != nil && sRepOK(c)
 //@   requires c.t.Config.ExpirationJitter <= 1.0
 //@   requires abs(ttlOf(ctx) != 0 ? ttlOf(ctx) : c.t.Config.TimeToLive) <= 1577880000000000000
@@ -483,7 +489,8 @@ package cache
 // Delete: "removes a cache entry with a given key and returns ErrNotFound for non-existent keys" (cache.go, Deleter).
 
 //@ func (*syncMap).Delete
-//@   props C07 C15 C18
+//@   flag onesection
+//@   props C07 C15 C18 C08 C16
 //@   requires ctx != nil && sRepOK(c)
 //@   let kb := bytes(key)
 //@   let found := old(sHas(c, kb))
@@ -839,3 +846,67 @@ package cache
 //@       && (forall n string :: has(labeledKeysByName, n) ==> labeledKeysByName[n] != nil && has(deleters, n))
 //@       && (forall n string :: forall j int :: has(deleters, n) && 0 <= j && j < len(deleters[n]) ==> deleters[n][j] != nil)
 //@   replay indexrace
+
+// ---------------------------------------------------------------------------------------------------
+// Field classes for data-race freedom (C16) and the per-key atomic-section discipline (C08).
+// A field of an object that other goroutines can reach is either guarded by a mutex (guardedby, above),
+// published through a channel close (published, above), accessed only through sync/atomic (atomic), or never
+// written after the object became reachable (immutable). Objects allocated by the current call are private until
+// they are stored into shared memory or handed to foreign code.
+// ---------------------------------------------------------------------------------------------------
+
+//@ type TraitEntry
+//@   props C16 C08
+//@   immutable K V E
+//@   atomic C
+
+//@ type TraitEntryOf[V]
+//@   props C16 C08
+//@   immutable K V E
+//@   atomic C
+
+//@ type Trait
+//@   props C16
+//@   atomic expirationsSet
+//@   immutable Closed DeleteExpired Len Evict Config Stat Log
+
+//@ type shardedMap
+//@   props C16 C08
+//@   immutable InvalidationIndex t
+
+//@ type shardedMapOf[V]
+//@   props C16 C08
+//@   immutable InvalidationIndex t
+
+//@ type syncMap
+//@   props C16 C08
+//@   immutable InvalidationIndex t
+
+//@ func (*syncMap).ExpireAll
+//@   props C07 C16
+//@   requires ctx != nil && sRepOK(c)
+//@   ensures [C07.sm.expireall.dom] sMapKept(c)
+//@   ensures [C07.sm.expireall.expired] forall s string :: sHas(c, s) ==> sEnt(c, s).E == now(1)
+//@   ensures [C07.sm.expireall.kv] forall p *TraitEntry :: old(allocated(p)) ==> p.K == old(p.K) && p.V == old(p.V) && p.C == old(p.C)
+//@   range 1 invariant [C07.sm.ea.dom] sMapKept(c) && smValuesAre(c.data, *TraitEntry) && startTS == now(1)
+//@   range 1 invariant [C07.sm.ea.visited] forall s string :: visited(s) && sHas(c, s) ==> sEnt(c, s).E == startTS
+//@   range 1 invariant [C07.sm.ea.kv] forall p *TraitEntry :: old(allocated(p)) ==> p.K == old(p.K) && p.V == old(p.V) && p.C == old(p.C)
+//@   replay entryrace backend:=syncmap
+
+//@ func (*syncMap).DeleteAll
+//@   props C07 C16
+//@   requires ctx != nil && sRepOK(c)
+//@   ensures [C07.sm.deleteall.empty] forall s string :: !sHas(c, s)
+//@   range 1 invariant [C07.sm.da.visited] forall s string :: visited(s) ==> !sHas(c, s)
+
+// The public accessors of Entry have value receivers; a call through the Entry interface (which holds *TraitEntry,
+// e.g. in Walk callbacks and Dump) runs these compiler-generated pointer wrappers, which copy the whole entry.
+//@ func (*TraitEntry).Key
+//@   props C16
+//@   replay entryrace
+//@ func (*TraitEntry).Value
+//@   props C16
+//@   replay entryrace
+//@ func (*TraitEntry).ExpireAt
+//@   props C16
+//@   replay entryrace
